@@ -759,7 +759,8 @@ class Element(object):
         if self.child_parser:
             kwargs['version'] = self.version
             kwargs['validation_level'] = self.validation_level
-            kwargs['encoding_chars'] = self.encoding_chars
+            if kwargs.get('encoding_chars') is None:
+                kwargs['encoding_chars'] = self.encoding_chars
             if 'references' not in kwargs:
                 kwargs['references'] = self.structure_by_name
 
@@ -1951,7 +1952,8 @@ class Group(Element):
         if ref['cls'] == Group:
             g = Group(child_name, validation_level=self.validation_level, version=self.version,
                       reference=ref['ref'])
-            g.value = text
+            # the new group has no parent yet: its text is split by the encoding chars of the element it is assigned to
+            g.parse_children(text, encoding_chars=self.encoding_chars)
             return g
         else:
             # Check that the value starts with the correct name of the segment.
@@ -1964,10 +1966,13 @@ class Group(Element):
             return Element.parse_child(self, text, **kwargs)
 
     def parse_children(self, text, find_groups=True, **kwargs):
+        encoding_chars = kwargs.get('encoding_chars')
         try:
             kwargs = {'references': self.reference, 'find_groups': find_groups}
         except AttributeError:
             kwargs = {'references': None, 'find_groups': False}
+        if encoding_chars is not None:
+            kwargs['encoding_chars'] = encoding_chars
 
         children = super(Group, self).parse_children(text, **kwargs)
         self.children = children
